@@ -27,7 +27,7 @@ import Apko.Proofs.Lemmas.FormatsIdbTotal
 import Apko.Proofs.Lemmas.FormatsSortComplete
 import Apko.Proofs.Lemmas.FormatsSortNodup
 import Apko.Proofs.Lemmas.FormatsNoPanic
-import Apko.Proofs.Lemmas.FormatsSortOrder
+import Apko.Proofs.Lemmas.FormatsSortIdem
 
 namespace Apko.C16
 open Apko Apko.Formats
@@ -468,5 +468,13 @@ theorem idb_order_independent (c : Codec) (p : Pkg) (fs1 fs2 : List FileRec) (ht
 
 example : sortHeaders sampleFiles.reverse = sortHeaders sampleFiles :=
   (sortTarHeaders_order_independent sampleFiles sampleFiles.reverse (by decide) (List.reverse_perm _).symm).symm
+
+/-- `sortTarHeaders` is idempotent on tree-shaped header lists with distinct names: sorting the list it
+produced gives the same list (so a db that is read and written again keeps its file order), and
+dropping the records it does not emit changes nothing -/
+theorem sortTarHeaders_idempotent (hs out : List FileRec) (ht : treeOK hs = true) (hn : namesNodup hs = true)
+    (h : sortHeaders hs = some out) :
+    sortHeaders out = some out ∧ sortHeaders (hs.filter (emitted hs)) = some out :=
+  ⟨sortHeaders_idem hs (treeOK_spec hs ht) hn out h, by rw [← h]; exact sortHeaders_kept hs (treeOK_spec hs ht)⟩
 
 end Apko.C16
